@@ -39,6 +39,7 @@ void async_manual_reset_event::set() noexcept {
   auto op = static_cast<_op_base*>(top);
   while (op != nullptr) {
     UNIFEX_VERIF_YIELD("scope.ev_pop");
+    UNIFEX_VERIF_YIELD("event.v1.set_pop");
     std::exchange(op, op->next_)->set_value();
   }
 }
@@ -52,6 +53,7 @@ void async_manual_reset_event::start_or_wait(
   void* top = evt.state_.load(std::memory_order_acquire);
 
   do {
+    UNIFEX_VERIF_YIELD("event.v1.sow_cas");
     if (top == signalledState) {
       // Already in the signalled state; don't push it.
       op.set_value();
